@@ -64,9 +64,9 @@ CLAIMED["C14"] = ("other", "Mixed: (proof) specifiers - 13 Boolean-algebra laws 
                   "(bounded) law sweep on real objects.", "5 C14", "C01/C05 contracts; list-induction principle for canonical uniqueness; C02 operator law (atom layer bounded); dense order",
                   "corollaries of operator contracts + machine-checked lemmas (z3), bounded law sweep")
 CLAIMED["C06"] = ("other", "Mixed: (proof, structured versions) every clause form RangeSpecifier._simplified_form/__str__ can emit ('', one-sided bounds, ==V, ~=V, explicit pair) and the !=V form of UnionSpecifier._simplified_form "
-                  "denote the object's own interval, str() raises nothing (index safety of the padded lists included), and the parsing side (_release_series, _from_pkg_specifier) builds exactly the bounds PEP 440 assigns to ~=V, ==P.*, !=P.*; "
+                  "(incl. the exact bounds of a rendered !=X.*) denote the object's own interval, str() raises nothing (index safety of the padded lists included), and the parsing side (_release_series, _from_pkg_specifier) builds exactly the bounds PEP 440 assigns to ~=V, ==P.*, !=P.*; "
                   "the open finding D3 is the refuted obligation 'upper bound of a ~= rendering has no post-release'; (bounded) text round trip through the real parser over the version-text grammar, the boundary-shape catalogue and operator results; "
-                  "the exact bounds of a rendered !=X.* are bounded only.", "5 C06", "A-VER, A-PKG-PARSE; wildcard-exclusion bounds, Union.__str__ and the parse folds bounded; finding D3",
+                  "UnionSpecifier.__str__ joins one range text per range in order.", "5 C06", "A-VER, A-PKG-PARSE; finding D3",
                   "contract-based deductive verification over structured versions (T-VER) + bounded text round trip")
 CLAIMED["C04"] = ("other", "Mixed: (proof) leaf translation: _from_pkg_specifier returns, for each of >,>=,<,<=,==,!=,~=,==P.*,!=P.* (with/without epoch), exactly the interval(s) PEP 440 assigns (structured versions), === gives ArbitrarySpecifier; the algebra between "
                   "leaves is C01/C05; (bounded) membership of final releases against packaging.SpecifierSet.contains for leaves and expression trees of depth <= 3, contains() path (through str()), === leaves raise ValueError or give the right set.",
